@@ -390,6 +390,19 @@ pub fn property(tier: Tier) -> Property {
             dec_cases.push(DecCase { enc_case: c.clone(), response, free: false, drip: false, fixed: Some(vec![16384]), segments: 1 });
         }
     }
+    // long runs of small messages (counters and "every N messages" thresholds in the decoder): 200
+    // (thorough 1500) messages of 0 / 1 / 3 bytes as one DATA frame, in blocks, and dripped
+    for enc in [None, ENC_OPTS[1]] {
+        let n = tier.q(200usize, 1500usize);
+        let msgs: Vec<Vec<u8>> = (0..n).map(|i| payload([0usize, 1, 3][i % 3], (i % 5) as u8)).collect();
+        let c = EncCase { prost: false, settings: (8 * 1024, 32 * 1024), msgs, enc, role: Role::Client };
+        for response in [false, true] {
+            dec_cases.push(DecCase { enc_case: c.clone(), response, free: false, drip: false, fixed: Some(vec![]), segments: 1 });
+            dec_cases.push(DecCase { enc_case: c.clone(), response, free: false, drip: false, fixed: Some(vec![16384]), segments: 1 });
+            dec_cases.push(DecCase { enc_case: c.clone(), response, free: false, drip: false, fixed: Some(vec![97, 640]), segments: 1 });
+            dec_cases.push(DecCase { enc_case: c.clone(), response, free: false, drip: true, fixed: None, segments: 1 });
+        }
+    }
     // streams longer than 72 wire bytes get one deviation less (the number of chunkings with k cuts
     // grows as len^k); every single cut position is still covered for them
     let long_threshold = tier.q(72usize, 40usize);
